@@ -96,6 +96,14 @@ def gen_cases(rng, tier):
             elif wkind == "double":
                 weights = [enc(Fraction(0.01 + abs(rng.gauss(0, 2)))) for _ in range(ns)]
             explicit = rng.random() < 0.6
+            if style == "int" and k % 16 == 6:
+                # many classes labelled 0 .. n-1 (all present), no weights, classes inferred
+                N = rng.choice([17, 20, 24])
+                ids = list(range(N))
+                ns = 3 * N
+                labels = ids + [rng.choice(ids) for _ in range(ns - N)]
+                preds = ids[::-1] + [rng.choice(ids) if rng.random() < 0.6 else lab for lab in labels[N:]]
+                wkind, weights, explicit = "none", None, False
             order = [ids[i] for i in _perm(rng, N)]
             present = sorted(set(labels) | set(preds))
             if not explicit and len(present) < 2:
@@ -204,6 +212,19 @@ def run_impl(case):
         cm_np = ConfusionMatrix(np.asarray(labels), np.asarray(preds), weights=None if weights is None else np.asarray(weights),
                                 classes=None if classes is None else np.asarray(classes))
         out["np_same"] = bool(np.array_equal(cm_np.matrix, cm.matrix) and list(cm_np.classes) == list(cm.classes))
+        # integer labels held in a narrow dtype give the same matrix
+        narrow_same = True
+        if style == "int" and labels and weights is None:
+            lo_, hi_ = min(labels + preds + list(classes or [])), max(labels + preds + list(classes or []))
+            for ndt, (a_, b_) in ((np.uint8, (0, 255)), (np.int8, (-128, 127)), (np.int16, (-32768, 32767))):
+                if a_ <= lo_ and hi_ <= b_:
+                    try:
+                        cmn = ConfusionMatrix(np.asarray(labels, dtype=ndt), np.asarray(preds, dtype=ndt),
+                                              classes=None if classes is None else np.asarray(classes, dtype=ndt))
+                        narrow_same = narrow_same and bool(np.array_equal(cmn.matrix, cm.matrix))
+                    except Exception:
+                        narrow_same = False
+        out["narrow_same"] = narrow_same
         base = list(cm.classes)
         classes2 = [base[i] for i in case["perm"]]
         out["perm"] = _collect(ConfusionMatrix(labels, preds, weights=weights, classes=classes2), style)
@@ -582,6 +603,9 @@ def oracle(case, res):
         W = tab(classes)[0]
         if not r["np_same"]:
             fails.append(("C05/equivalent-inputs", "[labels] numpy-array inputs give a different matrix than the same data as lists"))
+        if r.get("narrow_same") is False:
+            fails.append(("C05/equivalent-inputs/narrow-dtype", "[labels] the same integer labels held in a uint8 / int8 / int16 array give a "
+                                                                "different matrix (or raise) than as a list"))
         sigma = case["perm"]
         c2 = [classes[i] for i in sigma]
         W2 = [[W[i][j] for j in sigma] for i in sigma]
